@@ -16,6 +16,8 @@ inductive Atom
   | eqParamOrNull (col : String) (n : Nat)
   /-- `(expiry IS NULL OR DATETIME(expiry) > DATETIME('now'))` -/
   | expiryLive
+  /-- Postgres spelling: `(expiry IS NULL OR expiry > CURRENT_TIMESTAMP)` (timestamp comparison, no truncation to seconds) -/
+  | expiryLivePg
   /-- anything else, normalised text -/
   | other (text : String)
   deriving DecidableEq, Repr, Inhabited
@@ -30,18 +32,24 @@ structure Stmt where
   cols : List (String × Nat) := []
   whereAtoms : List Atom := []
   returning : String := ""
+  /-- SELECT: row-lock suffix (Postgres `FOR NO KEY UPDATE`), normalised lower case -/
+  lock : String := ""
   deriving DecidableEq, Repr, Inhabited
 
 def sameSet (a b : List Atom) : Bool := a.all (b.contains ·) && b.all (a.contains ·)
 
 def shapeOk (actual expected : Stmt) : Bool :=
   actual.verb == expected.verb && actual.table == expected.table && actual.policy == expected.policy &&
-  actual.cols == expected.cols && sameSet actual.whereAtoms expected.whereAtoms && actual.returning == expected.returning
+  actual.cols == expected.cols && sameSet actual.whereAtoms expected.whereAtoms && actual.returning == expected.returning &&
+  actual.lock == expected.lock
 
 /-- restricted to the given profile: `profile_id = ?1` is one of the conjuncts -/
 def Stmt.profileScoped (s : Stmt) : Bool := s.whereAtoms.contains (.eqParam "profile_id" 1)
 
 def Stmt.hidesExpired (s : Stmt) : Bool := s.whereAtoms.contains .expiryLive
+
+/-- the Postgres backend's expiry conjunct -/
+def Stmt.hidesExpiredPg (s : Stmt) : Bool := s.whereAtoms.contains .expiryLivePg
 
 namespace Expected
 
@@ -70,4 +78,24 @@ def tagInsertQuery : Stmt :=
 def tagDeleteQuery : Stmt := { verb := "delete", table := "items_tags", whereAtoms := [.eqParam "item_id" 1] }
 
 end Expected
+
+/- What the same model assumes of the POSTGRES backend's statements (backend/postgres/mod.rs): the same shapes, with
+    Postgres' spelling of the expiry conjunct, `ON CONFLICT DO NOTHING RETURNING id` for the insert and a row-locking
+    variant of the fetch.  There is no Postgres server in the sandbox: these statements are tied to the model by proof
+    obligations over the extracted text only (Generated/StmtsPg.lean), never by a correspondence run. -/
+namespace ExpectedPg
+
+def countQuery : Stmt := { verb := "select", table := "items", whereAtoms := Expected.scope ++ [.expiryLivePg] }
+def scanQuery : Stmt := { verb := "select", table := "items", whereAtoms := Expected.scope ++ [.expiryLivePg] }
+def fetchQuery : Stmt := { verb := "select", table := "items", whereAtoms := Expected.ident ++ [.expiryLivePg] }
+def fetchQueryUpdate : Stmt :=
+  { verb := "select", table := "items", whereAtoms := Expected.ident ++ [.expiryLivePg], lock := "for no key update" }
+def deleteQuery : Stmt := Expected.deleteQuery
+def deleteAllQuery : Stmt := Expected.deleteAllQuery
+def insertQuery : Stmt := { Expected.insertQuery with returning := "id" }
+def updateQuery : Stmt := Expected.updateQuery
+def tagInsertQuery : Stmt := Expected.tagInsertQuery
+def tagDeleteQuery : Stmt := Expected.tagDeleteQuery
+
+end ExpectedPg
 end Askar.Sql
